@@ -74,6 +74,12 @@ Step(e) ==
          /\ closed' = (closed \/ call.api = "Close")
          /\ call' = NoCall
          /\ UNCHANGED <<badb, closedH>>
+    [] e.ev = "FBig" ->
+         \* a transfer with realistic packet sizes: payloads are too big to log, so the harness logs the count, the error, the
+         \* File offset afterwards and whether the bytes moved equal the file's bytes (compared by hash)
+         /\ c01' = Set(c01, e.err # "" \/ e.n # e.size \/ ~e.equal, "large transfer: count, error or bytes wrong: " \o e.api)
+         /\ c12' = Set(c12, e.pos # e.wantpos, "File offset after a large transfer differs from os.File semantics: " \o e.api)
+         /\ UNCHANGED <<bad, content, offset, closed, badb, call, closedH, c13>>
     [] e.ev = "PReq" ->
          \* wire side of C12: exactly one CLOSE per handle, nothing on a handle after its CLOSE
          /\ c12' = Set(c12, e.h # "" /\ e.h \in closedH,
